@@ -82,4 +82,46 @@ META = {
                          "dulwich's HTTP git backend for /.git/ URLs"],
         "not_decided": ["symlinks inside the data directory", "behaviour of the dulwich wsgi chain under /.git/"],
     },
+    "C15": {
+        "explanation": "Table-agreement and must-pass-through rules for collection metadata: (M1) for each back end and field the "
+                       "storage key read by get_X equals the key written/deleted by set_X (constants folded from the source); (M2) "
+                       "every normal exit of every setter passes its save routine, and the save callbacks write to storage; (M3) every "
+                       "ConfigParser is built with interpolation=None; (M4) the property -> resource -> store -> config accessor "
+                       "chains of each settable property end at the same field. Escaping inside configparser / dulwich's config "
+                       "writer is value-level and not decided.",
+        "trusted_base": ["configparser with interpolation=None stores option values verbatim", "dulwich ConfigFile.set/get"],
+        "not_decided": ["escaping of quotes, '#', newlines in configparser / dulwich config", "interleavings over several collections"],
+    },
+    "C10": {
+        "explanation": "Structural necessary conditions of index transparency (the index path is never executed by the suite): "
+                       "(X1) the key prefixes produced by index_keys methods are a subset of those ICalendarFile._get_index handles; "
+                       "(X2) per filter class match_indexes reads only prefixes its index_keys yields; (X3) a multi-key matcher must not "
+                       "collapse a multi-valued entry by a constant subscript; (X4) on a miss all available keys are computed and the "
+                       "index is keyed by the (name, etag) of the listing tuple; (X5) reset empties both tables, an etag is marked "
+                       "after its values are stored, an unknown etag is a miss; (X7) sibling contradiction between naive and index "
+                       "iteration for unparseable members. X1, X3 and X7 are violated on the pinned tree (known findings, each "
+                       "reproduced). The value-level equivalence check_from_indexes(get_indexes(f)) == check(f) is not decided.",
+        "trusted_base": ["icalendar property to_ical/from_ical round trip for index values"],
+        "not_decided": ["value-level equivalence of the naive and the index evaluator for all files and filters"],
+    },
+    "C12": {
+        "explanation": "Dispatch, exception-escape and ordering rules for addressbook-query: (A1) _match has a branch per RFC 6352 "
+                       "match type, each returning an expression over BOTH operands with the right primitive; (A2) no strict narrow "
+                       "codec (ascii/latin-1 without errors=) on the evaluation path; (A3) collation registry, negate-condition, "
+                       "anyof/allof mapping and defaults; (A4) guard analysis of the nresults limit and the per-response counter; "
+                       "(A5) address-data is resource.get_body(). Not decidable here: apply_prop_filter matches against str(prop_el) "
+                       "of a vobject content line (needs third-party types) - documented in DESIGN.md, not reported by the check.",
+        "trusted_base": ["bytes.upper() folds ASCII letters only", "vobject parses the stored card"],
+        "not_decided": ["value extraction from vobject objects (str(prop_el))", "collation behaviour on arbitrary text"],
+    },
+    "C17": {
+        "explanation": "Branch-shape, guard-before-call and single-source rules for multiget: (M1) unresolved href -> Status 404 with "
+                       "no property, resolved href -> get_properties_with_data(self.data_property, href, resource, ...); (M2) "
+                       "supported_on is evaluated before get_value(_ext), its failure is a 404, the data properties compare the "
+                       "resource's content type with their own kind and each reporter is bound to its own data property; (M3) data "
+                       "without sub-elements and GET both come from get_body(); (M4) href outside the prefix -> None -> 404, and the "
+                       "property table is copied per call.",
+        "trusted_base": ["ElementTree parsing of the request body"],
+        "not_decided": ["percent-encoded variants of hrefs", "duplicates (unmappable duplicates are answered twice)", "ETag currency beyond C02"],
+    },
 }
